@@ -202,7 +202,7 @@ def bits_to_milli(h):
     return int(round(struct.unpack(">d", bytes.fromhex(h))[0] * 1000))
 
 
-def tune_model_line(t, hout):
+def tune_model_line(t, hout, recon=0):
     """-> model input line, or None if the harness output is not a TUNED line"""
     w = hout.split()
     if len(w) < 24 or w[0] != "TUNED" or w[1] != "TERMS" or w[3] != "ENV" or w[-2] != "VALID":
@@ -213,18 +213,18 @@ def tune_model_line(t, hout):
            [f[15], str(bits_to_milli(f[16])), f[17]]
     user = [str(t["code"]), str(t["patch"]), str(t["elitism"]), str(milli(t["p_mutation"])), str(milli(t["p_cross"]))] + \
            [str(t[k]) for k in TF[5:]] + ["20", "750", "3"]
-    return "TUNEM %s %s %s %d %s U %s I %s %s" % (t["cls"], t["strat"], t["validator"], t["rows"], terms,
-                                                 " ".join(user), " ".join(impl), w[-1])
+    return "TUNEM %s %s %s %d %s %d U %s I %s %s" % (t["cls"], t["strat"], t["validator"], t["rows"], terms, recon,
+                                                    " ".join(user), " ".join(impl), w[-1])
 
 
-def run_tune(ck, harness, model, tcases):
+def run_tune(ck, harness, model, tcases, recon=0):
     if not tcases:
         return
     lines = [tune_line(t) for t in tcases]
     hout, crashes = pc.run_harness_resilient(harness, lines, timeout=600)
     ml = []
     for t, h in zip(tcases, hout):
-        m = tune_model_line(t, h) if h and not h.startswith("CRASH") else None
+        m = tune_model_line(t, h, recon) if h and not h.startswith("CRASH") else None
         ml.append(m or "TUNEM bad")
     rc, mout, merr = vv.run_lines(model, "\n".join(ml) + "\n")
     if rc != 0 or len(mout) != len(tcases):
@@ -292,7 +292,11 @@ def run(ck):
                 t.update(validator=v, rows=120)
                 tcases.append(t)      # the percentage / dss left open with the strategy that needs it
         tcases += [gen_tune(ck.rng) for _ in range(3000 if ck.thorough else 400)]
-    run_tune(ck, harness, model, tcases)
+    # which tuning code does the tree have?  (environment::reconcile = repair of tune_valid_size_conflict)
+    with open(os.path.join(L["snap"], "kernel", "search.tcc")) as f:
+        recon = 1 if "reconcile(" in f.read() else 0
+    ck.coverage["tuning_model"] = "tune_rec (with environment::reconcile)" if recon else "tune (no reconcile)"
+    run_tune(ck, harness, model, tcases, recon)
 
     hout, crashes, mout = run_cases(harness, model, cases)
     totals = {}
